@@ -370,8 +370,27 @@ class P:
             return ("match", scrut, arms)
         if v == "{":
             return ("blockexpr", self.block())
-        if v == "|" or v == "||" or v == "move":
-            raise Untranslatable("closure")
+        if v == "move":
+            raise Untranslatable("move closure")
+        if v == "||":
+            raise Untranslatable("closure without parameters")
+        if v == "|":
+            # |p, q| expr   (closure: only as an argument of an iterator method)
+            self.eat("|")
+            pats = []
+            while not self.at("|"):
+                pats.append(self.pat())
+                if self.at(":"):
+                    self.eat(":")
+                    self.ty()
+                if self.at(","):
+                    self.eat(",")
+            self.eat("|")
+            if self.at("{"):
+                body = ("blockexpr", self.block())
+            else:
+                body = self.expr()
+            return ("closure", pats, body)
         if k == "id":
             path = [self.eat()[1]]
             while self.at("::"):
@@ -514,6 +533,8 @@ def rust_ty(t, cfg):
     if t.startswith("(") and t.endswith(")"):
         parts = split_top(t[1:-1])
         return ("tup", [rust_ty(p, cfg) for p in parts])
+    if t == "Self" and cfg.get("self_rust") in cfg.get("newtypes", {}):
+        return cfg["newtypes"][cfg["self_rust"]]
     if t == "Self" and cfg.get("self_ty"):
         return ("st", cfg["self_ty"])
     if t in cfg.get("types", {}):
@@ -638,7 +659,7 @@ class Lower:
                 return f"(Scalar.ofRat {s} 1 : α)", "S"
             if e[2] == "usize" and t == "S":
                 raise Untranslatable("f64 as usize")
-            if e[2] == "usize" and t == "N":
+            if e[2] in ("usize", "i32", "u32") and t == "N":
                 return s, t
             if e[2] == "f64" and t == "S":
                 return s, t
@@ -800,6 +821,10 @@ class Lower:
                 return f"(Scalar.atan2 {s} {a})", "S"
             if m == "powi" and len(args) == 1 and args[0] == ("num", "2"):
                 return f"({s} * {s})", "S"
+            if m == "powi" and len(args) == 1:
+                a, ta = self.ex(args[0], env, "N")
+                if ta == "N":
+                    return f"(spow {s} {a})", "S"
             if m == "clamp" and len(args) == 2:
                 lo, _ = self.ex(args[0], env, "S")
                 hi, _ = self.ex(args[1], env, "S")
@@ -818,6 +843,37 @@ class Lower:
             if m == "normalize" and not args:
                 return f"({t}.normalize {s})", t
         if isinstance(t, tuple) and t[0] == "list":
+            et = t[1]
+            def lam(cl, ptypes, want=None):
+                if cl[0] != "closure" or len(cl[1]) != len(ptypes):
+                    raise Untranslatable("closure expected")
+                env_c = dict(env)
+                ps = [self.bind_pat(q, pt, env_c) for q, pt in zip(cl[1], ptypes)]
+                b, bt = self.ex(cl[2], env_c, want)
+                return "(fun " + " ".join(ps) + " => " + b + ")", bt
+            if m in ("into_iter", "collect", "copied", "cloned", "values", "as_slice") and not args:
+                return s, t
+            if m == "map" and len(args) == 1:
+                f, bt = lam(args[0], [et])
+                return f"({s}.map {f})", ("list", bt)
+            if m == "filter" and len(args) == 1:
+                f, bt = lam(args[0], [et], "B")
+                return f"({s}.filter {f})", t
+            if m in ("all", "any") and len(args) == 1:
+                f, bt = lam(args[0], [et], "B")
+                if bt != "B":
+                    raise Untranslatable("predicate is not bool")
+                return f"({s}.{m} {f})", "B"
+            if m == "rev" and not args:
+                return f"{s}.reverse", t
+            if m == "sum" and not args and et == "S":
+                return f"({s}.foldl (fun a b => a + b) (0 : α))", "S"
+            if m == "fold" and len(args) == 2:
+                i0, it0 = self.ex(args[0], env, "S")
+                f, bt = lam(args[1], [it0, et])
+                return f"({s}.foldl {f} {i0})", it0
+            if m == "windows" and len(args) == 1 and args[0] == ("num", "2"):
+                return f"(windows2 {s})", ("list", ("list", et))
             if m == "len" and not args:
                 return f"{s}.length", "N"
             if m in ("iter", "to_vec") and not args:
@@ -860,6 +916,8 @@ class Lower:
             return "none", ("opt", "?")
         if path[-2:] == ["Vec", "new"] and not args:
             return "[]", ("list", "?")
+        if path[-2:] == ["Vec", "with_capacity"] and len(args) == 1:
+            return "[]", ("list", "?")
         if len(path) == 2 and path[0] == "f64" and args:
             return self.mcall(("mcall", args[0], name, args[1:]), env)
         npath = [self.cfg["self_rust"] if (q == "Self" and self.cfg.get("self_rust")) else q for q in path]
@@ -894,6 +952,10 @@ class Lower:
     def struct(self, e, env):
         path, fields = e[1], e[2]
         tn = path[-1]
+        nt = self.cfg.get("newtypes", {}).get(tn if tn != "Self" else self.cfg.get("self_rust"))
+        if nt and len(fields) == 1:
+            s, t = self.ex(fields[0][1], env)
+            return s, nt
         if tn == "Self":
             lt = self.cfg.get("self_ty")
         else:
